@@ -348,6 +348,19 @@ func init() {
 		m.writer = true
 		return in.ts.Bool(true)
 	})
+	reg("(*sync.RWMutex).TryLock", func(in *Interp, fr *frame, a []Value) Value {
+		p := ptrKey(a[0])
+		m := in.mutexes[p]
+		if m == nil {
+			m = &mutexState{}
+			in.mutexes[p] = m
+		}
+		if m.writer || m.readers > 0 {
+			return in.ts.Bool(false)
+		}
+		m.writer = true
+		return in.ts.Bool(true)
+	})
 	reg("(*sync.RWMutex).Lock", lock(true))
 	reg("(*sync.RWMutex).Unlock", unlock(true))
 	reg("(*sync.RWMutex).RLock", lock(false))
